@@ -2,6 +2,7 @@
 package gen
 
 import (
+	"sort"
 	"fmt"
 	"math"
 	"math/rand"
@@ -375,4 +376,23 @@ func imax(a, b int) int {
 		return a
 	}
 	return b
+}
+
+// BlockBases lists the element counts ⌊B/e⌋ ≤ maxN that fill a staging block of B = 4, 8, 16, 32 or 64 KiB
+// exactly (or to the last whole element) for the given element sizes in bytes, ascending and distinct. Codecs
+// that batch their output or input by a byte budget change behaviour at exact multiples of these counts
+// (round 7, C06-L: the last full block of an array of exactly k·2730 VEC3 floats was never written).
+func BlockBases(maxN int, elemSizes ...int) []int {
+	seen := map[int]bool{}
+	var out []int
+	for _, b := range []int{4096, 8192, 16384, 32768, 65536} {
+		for _, e := range elemSizes {
+			if n := b / e; n >= 1 && n <= maxN && !seen[n] {
+				seen[n] = true
+				out = append(out, n)
+			}
+		}
+	}
+	sort.Ints(out)
+	return out
 }
